@@ -195,6 +195,10 @@ structure E2E where
   group : Text := []
   oldPasswd : Text := []
   oldGroup : Text := []
+  /-- `accounts.run-as` of the image's /etc/apko.json (the configuration as the build resolved it); `none` when the
+  harness did not observe the file, `apkoBad` when it is there but unreadable -/
+  apkoRunAs : Option Text := none
+  apkoBad : Bool := false
 
 def parseE2E (toks : List String) : E2E :=
   toks.foldl (fun (e : E2E) tok =>
@@ -212,6 +216,8 @@ def parseE2E (toks : List String) : E2E :=
     | ["gr", t] => { e with group := ux t }
     | ["opw", t] => { e with oldPasswd := ux t }
     | ["ogr", t] => { e with oldGroup := ux t }
+    | ["aj", t] => { e with apkoRunAs := some (ux t) }
+    | ["ajbad", _] => { e with apkoBad := true }
     | _ => { e with acc := e.acc ++ [tok] }) {}
 
 /-- layer names are slash-separated relative paths -/
@@ -290,10 +296,16 @@ def handleE2E (sel : String) (toks : List String) : String :=
         (if loadUsers x.passwd = some wantU then [] else [tr "passwd"]) ++
         (if (loadGroups x.group).map (·.map normGroup) = some (wantG.map normGroup) then [] else [tr "group"]) ++
         e2eHomes x (ou.filterMap fun u => if u.home = devNull then none else some u.home) (cfg.users.map specUser) ++
-        (if x.configUser = (if cfg.runAs = [] then [] else
+        (let wantRunAs : Text := if cfg.runAs = [] then [] else
             match wantU.find? (fun u => u.name = cfg.runAs) with
             | some u => natToDec u.uid
-            | none => cfg.runAs) then [] else [tr "run-as"])
+            | none => cfg.runAs
+         (if x.configUser = wantRunAs then [] else [tr "run-as"]) ++
+         -- the same resolved value is what the image says about itself in /etc/apko.json
+         (if x.apkoBad then [tr "apko-json-unreadable"] else
+          match x.apkoRunAs with
+          | some r => if r = wantRunAs then [] else [tr "apko-json-run-as"]
+          | none => []))
       | _, _ => [tr "old-unparsable"]
     "-\t" ++ verdict accR ++ "\t" ++ (if accR = [] then "-" else "unlisted")
   else
